@@ -818,6 +818,45 @@ func MigrationInvariants(src []byte, resetSeams func(), knownValid bool) (kind, 
 				return "legacy-node-lost", fmt.Sprintf("legacy action/rule set %s is not a node of the migrated flow", u)
 			}
 		}
+		// ... and how they are connected: the destinations of an action set / of a rule set's rules are
+		// the destinations of the migrated node's exits (destinations that name no node are dropped by design)
+		migDests := map[string]map[string]bool{}
+		for _, n := range nodes {
+			d := map[string]bool{}
+			for _, ex := range n.Exits() {
+				if ex.DestinationUUID() != "" {
+					d[string(ex.DestinationUUID())] = true
+				}
+			}
+			migDests[string(n.UUID())] = d
+		}
+		for _, k := range []string{"action_sets", "rule_sets"} {
+			l, _ := s[k].([]any)
+			for _, x := range l {
+				xm, _ := x.(map[string]any)
+				u, _ := xm["uuid"].(string)
+				if xm == nil || u == "" {
+					continue
+				}
+				want := map[string]bool{}
+				if d, ok := xm["destination"].(string); ok && have[d] {
+					want[d] = true
+				}
+				if rules, ok := xm["rules"].([]any); ok {
+					for _, r := range rules {
+						if rm, ok := r.(map[string]any); ok {
+							if d, ok := rm["destination"].(string); ok && have[d] {
+								want[d] = true
+							}
+						}
+					}
+				}
+				gotD := migDests[u]
+				if fmt.Sprint(gen.SortedKeys(want)) != fmt.Sprint(gen.SortedKeys(gotD)) {
+					return "legacy-connections-changed", fmt.Sprintf("legacy %s %s leads to %v, the migrated node leads to %v", k, u, gen.SortedKeys(want), gen.SortedKeys(gotD))
+				}
+			}
+		}
 	}
 	// a second migration is a no-op
 	m2, err := migrations.MigrateToLatest(m1, migrations.DefaultConfig)
